@@ -25,22 +25,23 @@ import (
 )
 
 type Obligation struct {
-	Name      string
-	Kind      string // ensures, requires-at-call, invariant-entry, invariant-preserved, decreases, bounds, slice, nil, assert-type, div, frame, guard, shared-write, chan, hook, unreachable, lemma, cover
-	Anchor    string
-	Pos       token.Pos
-	PosStr    string
-	Desc      string
-	Guard     string
-	Goal      string
-	Cover     bool // sat expected (vacuity guard)
-	Status    string
-	Backend   string
-	Seconds   float64
-	Model     string
-	SolverOut string
-	seq       int
-	Fn        string
+	Name         string
+	Kind         string // ensures, requires-at-call, invariant-entry, invariant-preserved, decreases, bounds, slice, nil, assert-type, div, frame, guard, shared-write, chan, hook, unreachable, lemma, cover
+	Anchor       string
+	Pos          token.Pos
+	PosStr       string
+	Desc         string
+	Guard        string
+	Goal         string
+	Cover        bool // sat expected (vacuity guard)
+	Status       string
+	Backend      string
+	Seconds      float64
+	Model        string
+	ModelRelaxed bool
+	SolverOut    string
+	seq          int
+	Fn           string
 }
 
 type item struct {
@@ -150,6 +151,7 @@ type fnGen struct {
 	frame           []assignLoc
 	frameAll        bool
 	timeoutMs       int
+	errGlobals      []string
 }
 
 type guardProv struct {
@@ -425,6 +427,7 @@ type addr struct {
 	ref        string
 	prov       *guardProv
 	sharedDecl *SharedDecl
+	immGlobal  *ssa.Global
 }
 
 type pathStep struct {
@@ -497,6 +500,9 @@ func (g *fnGen) resolveAddr(st *state, v ssa.Value) *addr {
 	case *ssa.Global:
 		a := &addr{kind: akHeap, typ: deref(x.Type()), ptr: g.val(st, x)}
 		a.sharedDecl = g.sharedForGlobal(x)
+		if _, ok := g.P.immutable[x]; ok && a.sharedDecl == nil {
+			a.immGlobal = x
+		}
 		return a
 	}
 	// generic pointer value
@@ -574,8 +580,27 @@ func (g *fnGen) load(st *state, a *addr, instr ssa.Instruction) string {
 			g.typeFacts(st, v, a.typ)
 			return v
 		}
+		if a.immGlobal != nil {
+			return g.immutableGlobalValue(a.immGlobal)
+		}
 		return g.loadAt(st, a.typ, a.ptr)
 	}
+}
+
+// immutableGlobalValue: the value of a package-level variable that is never
+// written after package initialisation is one constant for the whole run.
+func (g *fnGen) immutableGlobalValue(x *ssa.Global) string {
+	t := deref(x.Type())
+	sym := q("gval!" + x.Pkg.Pkg.Name() + "." + x.Name())
+	if _, ok := g.R.uninterp[sym]; !ok {
+		g.R.declareFun(sym, fmt.Sprintf("(declare-const %s %s)", sym, g.R.sortOf(t)))
+		if g.P.immutable[x] == "errnew" {
+			g.R.extraAxioms = append(g.R.extraAxioms, fmt.Sprintf("(assert (> (i-tag %s) 0))", sym))
+			g.errGlobals = append(g.errGlobals, sym)
+		}
+		g.assumptions["package-level variable never assigned outside init is treated as a constant: "+x.Pkg.Pkg.Name()+"."+x.Name()] = true
+	}
+	return sym
 }
 
 func (g *fnGen) store(st *state, a *addr, val string, instr ssa.Instruction) {
@@ -1533,6 +1558,9 @@ func (g *fnGen) enterLoop(li *loopInfo, entry *state) *state {
 		g.typeFacts(st, h, t)
 		// built-in invariant of range-index loops: the hidden index starts at -1 and only grows
 		if phi, ok := k.(*ssa.Phi); ok && strings.HasPrefix(li.header.Comment, "rangeindex") && isInteger(phi.Type()) {
+			g.assume(st, S(">=", h, "(- 1)"))
+		}
+		if al, ok := k.(*ssa.Alloc); ok && al.Comment == "rangeindex" {
 			g.assume(st, S(">=", h, "(- 1)"))
 		}
 	}
